@@ -18,6 +18,8 @@
      parentheses around declarators that start with '*', and array suffixes [ ], [decimal],
      [octal], [hexadecimal] (value <= SSIZE_MAX); any white space that separates the tokens; any
      declaration context; any output buffer that is large enough.
+   SIDE THEOREMS (all strings): C07_no_fault, C07_result_index_in_range,
+     C07_next_token_stops_at_terminator, C07_lookahead_stops_at_terminator.
    MISSING from the full statement: function suffixes (parameters, void, ..., __cdecl/__stdcall),
      typedef/struct/union/enum/standard names, named array lengths, declarator names, qualifiers
      after the specifiers but before the first '*' are covered only when written in the
@@ -26,7 +28,7 @@
 From Coq Require Import List Arith NArith ZArith Lia Bool String.
 Import ListNotations.
 From Cffi Require Import C25.Model C07.Model C07.Realize C07.PyModel C07.Lexer C07.Tokens C07.Specs
-     C07.SpecsAgree C07.Parse C07.Sequel C07.Sequel2 C07.Agree.
+     C07.SpecsAgree C07.Parse C07.Sequel C07.Sequel2 C07.Agree C07.NoFault C07.NoFault2 C07.NoFault3.
 
 (* "any ordering of primitive specifiers": on every list of specifier keywords the C parser
    (c_spec_abs: modifiers loop, base-type switch, _Complex, nothing left over) and the Python
@@ -62,7 +64,7 @@ Theorem C07_declarator_opcodes : forall osz cx g input toks, lexed input toks ->
     (forall j, (j < List.length o)%nat -> nth_error o' j = nth_error o j) /\
     (forall out'', agree out'' o' (List.length o) (List.length o') ->
        forall m n, decodes g n out'' outer m -> decodes g (n + cost d) out'' idx (apply_decl d m)).
-Proof. intros osz cx g input toks L. exact (sequel_run osz cx g input toks L). Qed.
+Proof. exact sequel_run. Qed.
 Print Assumptions C07_declarator_opcodes.
 
 (* the agreement theorem for the sub-grammar described above *)
@@ -74,6 +76,42 @@ Theorem C07_agree_partial : forall (g : genv) (osz : nat) q1 ws d wtoks trailing
   c_typeof osz g (spell wtoks trailing) = denote g (simple_te q1 ws d).
 Proof. exact agree_partial. Qed.
 Print Assumptions C07_agree_partial.
+
+(* ---------------------------------------------------------------- memory safety (side theorems, used by C30) *)
+(* Every load tok->output[i] and every store tok->output[i] = .. / *p_current = .. of the model goes
+   through get_out / set_out, which return Fault unless 0 <= i < output_index; write_ds is the only
+   operation that appends and it refuses (error "internal type complexity limit reached") unless
+   output_index < output_size.  For EVERY input string, type context and buffer size the parser
+   never faults: all indices used are inside the part of the buffer already written.
+   (The heart of the proof is the bound  arg_next + commas-still-ahead + 1 < output_index  that
+   justifies the number_of_commas()+2 slots reserved for the arguments of a function type.
+   Before commit bdb4859 the C code read tok->output[arg] with arg == -1 after a failed argument;
+   in this model that access is a Fault, i.e. the statement below was false of the old code.) *)
+Theorem C07_no_fault : forall (output_size : nat) (cx : ctx) (input : str),
+  parse_c_type output_size cx input <> Fault.
+Proof. exact parse_no_fault. Qed.
+Print Assumptions C07_no_fault.
+
+(* ... and a successful parse returns an index inside the written part of the buffer *)
+Theorem C07_result_index_in_range : forall (output_size : nat) (cx : ctx) (input : str) out r,
+  parse_c_type output_size cx input = Ok (out, r) -> (0 <= r < Z.of_nat (List.length out))%Z.
+Proof. exact result_index_in_range. Qed.
+Print Assumptions C07_result_index_in_range.
+
+(* next_token / get_following_char / number_of_commas never depend on what is stored after the
+   terminating NUL, and the token they deliver lies before it: for a NUL-free text s,
+   scanning  s NUL junk  is scanning  s *)
+Theorem C07_next_token_stops_at_terminator : forall s junk, nulfree s = true ->
+  lex_from (s ++ 0%N :: junk) = lex_from s /\
+  (forall k n kd, lex_from s = (k, n, kd) -> (k + n <= List.length s)%nat).
+Proof. exact next_token_stops_at_terminator. Qed.
+Print Assumptions C07_next_token_stops_at_terminator.
+
+Theorem C07_lookahead_stops_at_terminator : forall s junk,
+  first_nonspace (s ++ 0%N :: junk) = first_nonspace s /\
+  (forall d acc, ncommas (s ++ 0%N :: junk) d acc = ncommas s d acc).
+Proof. exact lookahead_stops_at_terminator. Qed.
+Print Assumptions C07_lookahead_stops_at_terminator.
 
 (* ---------------------------------------------------------------- the full statement is false *)
 Definition nog : genv := mkGenv [] [] [] [].
